@@ -12,6 +12,8 @@ fn vf_log_show_bytes() {
         ("CRLF line ends", b"a\r\nb\r\n".to_vec()),
         ("binary bytes", vec![0u8, 159, 146, 150, 10, 255, 254, 10, 7]),
         ("only a newline", b"\n".to_vec()),
+        // one incompressible line far longer than any encoder block (pseudo-random bytes without a newline), then a short line
+        ("one 600 KiB incompressible line", { let mut x: u64 = 0x9E3779B97F4A7C15; let mut v: Vec<u8> = (0..600 * 1024).map(|_| { x ^= x << 13; x ^= x >> 7; x ^= x << 17; let b = (x >> 24) as u8; if b == b'\n' { b'.' } else { b } }).collect(); v.extend_from_slice(b"\nend\n"); v }),
     ];
     let (mut checked, mut bad) = (0u64, 0u64);
     for (what, bytes) in cases {
@@ -44,7 +46,8 @@ fn vf_log_show_bytes() {
         if !ok {
             bad += 1;
             let tail = match out.iter().position(|b| *b == b'\n') { Some(p) => out[p + 1..].to_vec(), None => out.clone() };
-            println!("VF-FAIL process output {:?} ({}) :: `log show --stdout` printed after its header {:?} (exit ok={}), the stored log is {:?} (C08)", bytes, what, tail, show.status.success(), bytes);
+            if bytes.len() > 200 { println!("VF-FAIL process output of {} bytes ({}) :: `log show --stdout` printed {} bytes after its header (exit ok={}); first difference at byte {} (C08)", bytes.len(), what, tail.len(), show.status.success(), tail.iter().zip(bytes.iter()).position(|(a, b)| a != b).unwrap_or(tail.len().min(bytes.len()))); } else {
+            println!("VF-FAIL process output {:?} ({}) :: `log show --stdout` printed after its header {:?} (exit ok={}), the stored log is {:?} (C08)", bytes, what, tail, show.status.success(), bytes); }
         }
     }
     println!("VF-SUMMARY test=log_show_bytes checked={} nontrivial={} bad={}", checked, checked - 1, bad);
